@@ -476,22 +476,29 @@ def render_dependencies(content: TContent, type: RenderType = "document") -> TCo
             )
         return replacement
 
-    content_ = PLACEHOLDER_REGEX.sub(on_replace_match, content_)
-
     # By default, if user didn't specify any `{% component_dependencies %}`,
     # then try to insert the JS scripts at the end of <body> and CSS sheets at the end
-    # of <head>
-    if type == "document" and (not did_find_js_placeholder or not did_find_css_placeholder):
-        # NOTE: We search and insert on bytes, so that content in other encodings than UTF-8
-        #       (e.g. a response with `charset=latin-1`) is left as is.
-        maybe_transformed = _insert_js_css_to_default_locations(
-            content_,
-            css_content=None if did_find_css_placeholder else css_dependencies,
-            js_content=None if did_find_js_placeholder else js_dependencies,
-        )
+    # of <head>.
+    # NOTE: We insert the placeholders there BEFORE the placeholders are replaced, so that
+    #       the generated JS / CSS is never itself searched for `</head>` / `</body>`.
+    if type == "document":
+        placeholders = PLACEHOLDER_REGEX.findall(content_)
+        has_css_placeholder = any(CSS_PLACEHOLDER_NAME_B in placeholder for placeholder in placeholders)
+        has_js_placeholder = any(JS_PLACEHOLDER_NAME_B in placeholder for placeholder in placeholders)
 
-        if maybe_transformed is not None:
-            content_ = maybe_transformed
+        if not has_css_placeholder or not has_js_placeholder:
+            # NOTE: We search and insert on bytes, so that content in other encodings than UTF-8
+            #       (e.g. a response with `charset=latin-1`) is left as is.
+            maybe_transformed = _insert_js_css_to_default_locations(
+                content_,
+                css_content=None if has_css_placeholder else CSS_DEPENDENCY_PLACEHOLDER.encode(),
+                js_content=None if has_js_placeholder else JS_DEPENDENCY_PLACEHOLDER.encode(),
+            )
+
+            if maybe_transformed is not None:
+                content_ = maybe_transformed
+
+    content_ = PLACEHOLDER_REGEX.sub(on_replace_match, content_)
 
     # In case of a fragment, we only append the JS (actually JSON) to trigger the call of dependency-manager
     if type == "fragment":
